@@ -287,8 +287,14 @@ impl Font {
                 let mut iter = cid.widths.iter();
                 while let Some(p) = iter.next() {
                     let c1 = p.as_usize()?;
+                    if c1 > 0xFFFF {
+                        bail!("CID beyond 65535 in W array");
+                    }
                     match iter.next() {
                         Some(Primitive::Array(array)) => {
+                            if c1 + array.len() > 0x10000 {
+                                bail!("CID beyond 65535 in W array");
+                            }
                             widths.ensure_cid((c1 + array.len()).saturating_sub(1));
                             for (i, w) in array.iter().enumerate() {
                                 widths.set(c1 + i, w.as_number()?);
@@ -297,6 +303,9 @@ impl Font {
                         Some(&Primitive::Reference(r)) => {
                             match resolve.resolve(r)? {
                                 Primitive::Array(array) => {
+                                    if c1 + array.len() > 0x10000 {
+                                        bail!("CID beyond 65535 in W array");
+                                    }
                                     widths.ensure_cid((c1 + array.len()).saturating_sub(1));
                                     for (i, w) in array.iter().enumerate() {
                                         widths.set(c1 + i, w.as_number()?);
@@ -307,8 +316,8 @@ impl Font {
                         }
                         Some(&Primitive::Integer(c2)) => {
                             let w = try_opt!(iter.next()).as_number()?;
-                            if c2 < 0 {
-                                bail!("negative CID in W array");
+                            if c2 < 0 || c2 > 0xFFFF {
+                                bail!("CID out of range in W array");
                             }
                             for c in c1 ..= (c2 as usize) {
                                 widths.set(c, w);
